@@ -1,6 +1,7 @@
 """Per-property decision procedures. Each returns the process exit status."""
 import json, os, random, shutil
 from common import *
+from concurrent.futures import ThreadPoolExecutor
 
 REGISTRY = {}
 
@@ -140,9 +141,35 @@ def _c05_mc(prop, tier, res):
         res.add_mc(require_mc(tlc_mc("NgSearch", "NgSearch_n3s.cfg", workers=12, timeout=3600)))
 
 
+def _c05_conformance(res, binary, tier):
+    """step-level conformance of NgSearch with the real loop through the search tracer (hook H3): drift only"""
+    prefix = os.path.join(WORK, "search_C05")
+    run_harness(binary, ["search", "--tier", tier, "--out-prefix", prefix])
+    jobs = [("Trace_NgSearch_n%d_%s.cfg" % (n, m), "%s_n%d_%s.ndjson" % (prefix, n, m)) for n in (2, 3) for m in ("st", "tv")]
+    with ThreadPoolExecutor(max_workers=4) as ex:
+        outs = list(ex.map(lambda j: tlc_conformance("Trace_NgSearch", j[0], j[1]), jobs))
+    total, drift = 0, []
+    for (cfg, path), (runs, drifted, st, tr) in zip(jobs, outs):
+        total += runs
+        res.states += st
+        res.transitions += tr
+        if drifted is None:
+            drift.append({"file": os.path.basename(path), "what": "validation did not complete"})
+        else:
+            drift += [{"run": d} for d in drifted]
+    res.extra["step_level_conformance"] = {"traced_runs_of_nogood_internal": total, "drifted": drift[:20], "drift_count": len(drift),
+                                           "meaning": "every logged loop-head state of the real search is reached by one NgSearch!Iterate step with the logged pick"}
+    res.drift += drift
+    log("NgSearch step-level conformance: %d traced runs, %d drifted" % (total, len(drift)))
+
+
 @register("C05")
 def check_c05(prop, tier, replay, selftest):
-    return check_sem(prop, tier, replay, selftest, mc=_c05_mc)
+    def mc(prop, tier, res):
+        _c05_mc(prop, tier, res)
+        if not replay:
+            _c05_conformance(res, os.path.join(HARNESS, "target", "debug", "adfv"), tier)
+    return check_sem(prop, tier, replay, selftest, mc=mc)
 
 
 # ------------------------------------------------------------------ C06 C07 C13 (store level, shared harness subcommand)
@@ -821,10 +848,20 @@ def check_c12(prop, tier, replay, selftest):
         with open(cmp_path, "w") as f:
             for sub in ("sem", "bdd", "hist"):
                 with open(base[sub]) as fa, open(outs[sub]) as fb:
-                    for la, lb in zip(fa, fb):
-                        a, b = json.loads(la), json.loads(lb)
+                    A = [json.loads(x) for x in fa]
+                    B = {}
+                    for x in fb:
+                        jb = json.loads(x)
+                        B.setdefault(jb.get("id"), jb)
+                    for a in A:
                         k = a.get("kind")
-                        if k == "adf":
+                        if k not in ("adf", "op", "query", "hist"):
+                            continue
+                        b = B.get(a.get("id"))
+                        if b is None or b.get("kind") != k or (k == "op" and (b.get("op"), b.get("a"), b.get("b")) != (a.get("op"), a.get("a"), a.get("b"))):
+                            # the seeded workload took a different course under this build: some earlier answer differed
+                            rec = {"what": "diverged", "id": a.get("id"), "default": k, "variant": (b or {}).get("kind", "missing")}
+                        elif k == "adf":
                             strip = lambda calls: [{x: c_[x] for x in ("c", "b", "h", "st", "r")} for c_ in calls]
                             rec = {"what": "sem", "id": a["id"], "default": strip(a["calls"]), "variant": strip(b["calls"])}
                         elif k == "op":
@@ -832,11 +869,9 @@ def check_c12(prop, tier, replay, selftest):
                         elif k == "query":
                             rec = {"what": "query", "id": a["id"], "default": a, "variant": b, "feat_default": a["feat"], "feat_variant": b["feat"]}
                             seen.add((name, a["id"]))
-                        elif k == "hist":
+                        else:
                             strip = lambda calls: [[c_["c"], c_["a"], c_["a_st"]] for c_ in calls]
                             rec = {"what": "hist", "id": a["id"], "default": strip(a["calls"]), "variant": strip(b["calls"])}
-                        else:
-                            continue
                         rec["kind"] = "featcmp"
                         rec["build"] = name
                         f.write(json.dumps(rec) + "\n")
